@@ -332,7 +332,7 @@ pub fn c18_case(rs: u64, _nonce: u64, replay: Option<Vec<u32>>) -> CaseOutcome {
     let wcfg = WorldCfg { static_sync_iterations: 0, ..WorldCfg::default() };
     let mut w = World::new(&wcfg, seg, t);
     let md = w.md();
-    let mut group: SubDeviceGroup<8, 64, crate::simlock::SimLock> = match w.sim.block_on(md.init::<8, SubDeviceGroup<8, 64, crate::simlock::SimLock>>(now_ns, Default::default(), |g, _sd| Ok(g))) {
+    let mut group: SubDeviceGroup<8, 4096, crate::simlock::SimLock> = match w.sim.block_on(md.init::<8, SubDeviceGroup<8, 4096, crate::simlock::SimLock>>(now_ns, Default::default(), |g, _sd| Ok(g))) {
         Ok(Ok(g)) => g,
         Ok(Err(e)) => {
             out.violations.push(viol("init-failed", format!("{:?}", e)));
